@@ -179,7 +179,7 @@ impl<'a> Runner<'a> {
             // the machine is blocked: decide what the environment does next
             let http = self.hub.lock().unwrap().http_waiting;
             if let Some(g) = http {
-                let first = { let mut h = self.hub.lock().unwrap(); let f = !h.during_done; h.during_done = true; f };
+                let first = { let mut h = self.hub.lock().unwrap(); let f = !h.during_done && !h.reboot_phase && h.http_seen >= h.env.during_at; h.http_seen += 1; if f { h.during_done = true; } f };
                 if first {
                     let during = self.hub.lock().unwrap().env.during.clone();
                     for (id, od) in during {
